@@ -1002,3 +1002,260 @@ Lemma obs_log_calls args log : length (obs_log args log) = (length log * S (leng
 Proof.
   induction log as [|a t IH]; [reflexivity|]. rewrite obs_log_cons. cbn [length]. rewrite app_length, IH. lia.
 Qed.
+
+(* ------------------------------------------------------------------ Part G: GroupBy.do / map *)
+Lemma NoDup_app_intro (l1 l2 : list Z) :
+  NoDup l1 -> NoDup l2 -> (forall x, In x l1 -> ~ In x l2) -> NoDup (l1 ++ l2).
+Proof.
+  induction l1 as [|x t IH]; simpl; intros H1 H2 Hd; [exact H2|].
+  inversion H1; subst. constructor.
+  - intros H. apply in_app_or in H. destruct H as [H|H]; [tauto|]. apply (Hd x); [left; reflexivity|exact H].
+  - apply IH; [assumption|assumption|]. intros y Hy. apply Hd. right. exact Hy.
+Qed.
+
+Lemma subseq_trans l1 l2 l3 : subseq l1 l2 -> subseq l2 l3 -> subseq l1 l3.
+Proof.
+  intros H12 H23. revert l1 H12. induction H23; intros l1 H12.
+  - exact H12.
+  - inversion H12; subst; [constructor; apply IHsubseq; assumption|apply sub_skip; apply IHsubseq; assumption].
+  - apply sub_skip. apply IHsubseq. exact H12.
+Qed.
+
+(* each group's log: duplicate-free, made of that group's members; in group order for do/map *)
+Definition group_log_ok (k : akind) (g l : list Z) : Prop :=
+  NoDup l /\ (forall a, In a l -> In a g) /\ (k <> KShuffleDo -> subseq l g).
+
+Lemma visit_groups_spec k sc gs : forall perms s s' logs,
+  (forall key g, In (key, g) gs -> NoDup g) ->
+  visit_groups k sc gs perms s = Some (s', logs) ->
+  map fst logs = map fst gs /\
+  Forall2 (fun kl kg => group_log_ok k (snd kg) (snd kl)) logs gs.
+Proof.
+  induction gs as [|[key g] gs IH]; intros perms s s' logs Hn; simpl.
+  - intros H. inversion H; subst. split; [reflexivity|constructor].
+  - destruct (activate k (hd [] perms) sc (filter (alive s) g) s) as [[s1 log1]|] eqn:E; [|discriminate].
+    destruct (visit_groups k sc gs (tl perms) s1) as [[s2 logs2]|] eqn:E2; [|discriminate].
+    intros H. inversion H; subst.
+    destruct (IH (tl perms) s1 s' logs2) as [Hk Hf]; [intros k0 g0 H0; apply (Hn k0 g0); right; exact H0|exact E2|].
+    split; [simpl; f_equal; exact Hk|]. constructor; [|exact Hf].
+    cbn [snd]. assert (NoDup g) as Hg by (apply (Hn key g); left; reflexivity).
+    repeat split.
+    + eapply activate_once; [|exact E]. apply NoDup_filter. exact Hg.
+    + intros a Ha. pose proof (activate_members_only _ _ _ _ _ _ _ E a Ha) as Hin.
+      apply filter_In in Hin. apply Hin.
+    + intros Hk'. pose proof (activate_order _ _ _ _ _ _ _ E) as Ho.
+      eapply subseq_trans; [|apply subseq_filter].
+      destruct k; [exact Ho|congruence|exact Ho].
+Qed.
+
+Lemma groups_of_keys m l : map fst (groups_of m l) = group_keys m l.
+Proof. unfold groups_of. rewrite map_map. simpl. apply map_id. Qed.
+
+Lemma groups_of_spec m l key g :
+  In (key, g) (groups_of m l) -> g = filter (fun a => gkey m a =? key) l.
+Proof.
+  unfold groups_of. rewrite in_map_iff. intros (k0 & H & _). inversion H; subst. reflexivity.
+Qed.
+
+Lemma nodup_flat_logs m (logs : list (Z * list Z)) :
+  NoDup (map fst logs) ->
+  (forall key l, In (key, l) logs -> NoDup l /\ forall a, In a l -> gkey m a = key) ->
+  NoDup (flat_map snd logs).
+Proof.
+  induction logs as [|[key l] t IH]; simpl; intros Hk Hl; [constructor|].
+  inversion Hk; subst. apply NoDup_app_intro.
+  - apply (Hl key l). left. reflexivity.
+  - apply IH; [assumption|]. intros k0 l0 H0. apply Hl. right. exact H0.
+  - intros x Hx Hin. apply in_flat_map in Hin. destruct Hin as ([k0 l0] & H0 & Hx0). simpl in Hx0.
+    assert (gkey m x = key) as E1 by (apply (Hl key l); [left; reflexivity|exact Hx]).
+    assert (gkey m x = k0) as E2 by (apply (Hl k0 l0); [right; exact H0|exact Hx0]).
+    apply H1. rewrite in_map_iff. exists (k0, l0). split; [simpl; congruence|exact H0].
+Qed.
+
+Lemma Forall2_In_l {A B} (R : A -> B -> Prop) la lb x :
+  Forall2 R la lb -> In x la -> exists y, In y lb /\ R x y.
+Proof.
+  induction 1; simpl; intros Hx; [tauto|]. destruct Hx as [Hx|Hx].
+  - subst. eexists. split; [left; reflexivity|assumption].
+  - destruct (IHForall2 Hx) as (y0 & Hy & Hr). exists y0. split; [right; exact Hy|exact Hr].
+Qed.
+
+Lemma Forall2_keys_eq (R : list Z -> list Z -> Prop) (logs gs : list (Z * list Z)) :
+  Forall2 (fun kl kg => R (snd kg) (snd kl)) logs gs -> map fst logs = map fst gs -> NoDup (map fst gs) ->
+  forall key l, In (key, l) logs -> exists g, In (key, g) gs /\ R g l.
+Proof.
+  induction 1 as [|[k1 l1] [k2 g2] logs gs HR HF IH]; simpl; intros Hk Hn key l Hin; [tauto|].
+  inversion Hk as [[Hk1 Hk2]]. inversion Hn as [|? ? Hn1 Hn2]; subst. destruct Hin as [Hin|Hin].
+  - inversion Hin; subst. exists g2. split; [left; reflexivity|exact HR].
+  - destruct (IH Hk2 Hn2 key l Hin) as (g & Hg & Hr). exists g. split; [right; exact Hg|exact Hr].
+Qed.
+
+Lemma reached_groupby_once ops k r m perms sc members s' logs :
+  lookup r (sets (reached ops)) = Some members ->
+  visit_groups k sc (groups_of m members) perms (reached ops) = Some (s', logs) ->
+  map fst logs = group_keys m members /\ NoDup (map fst logs) /\
+  NoDup (flat_map snd logs) /\
+  forall key l, In (key, l) logs ->
+    group_log_ok k (filter (fun a => gkey m a =? key) members) l.
+Proof.
+  intros H Hv. destruct (reached_set ops r members H) as [Hn _].
+  assert (forall key g, In (key, g) (groups_of m members) -> NoDup g) as Hg.
+  { intros key g Hin. rewrite (groups_of_spec m members key g Hin). apply NoDup_filter. exact Hn. }
+  destruct (visit_groups_spec k sc _ perms _ s' logs Hg Hv) as [Hk Hf].
+  rewrite groups_of_keys in Hk.
+  assert (NoDup (map fst logs)) as Hnk.
+  { rewrite Hk. apply (dedup_first_NoDup Z.eqb Z.eqb_eq). }
+  assert (forall key l, In (key, l) logs -> group_log_ok k (filter (fun a => gkey m a =? key) members) l) as Hok.
+  { intros key l Hin.
+    destruct (Forall2_keys_eq (group_log_ok k) logs (groups_of m members) Hf) with (key := key) (l := l)
+      as (g & Hgin & Hr).
+    - rewrite groups_of_keys. exact Hk.
+    - rewrite groups_of_keys. rewrite <- Hk. exact Hnk.
+    - exact Hin.
+    - rewrite <- (groups_of_spec m members key g Hgin). exact Hr. }
+  repeat split; try assumption.
+  - apply (nodup_flat_logs m); [exact Hnk|]. intros key l Hin. destruct (Hok key l Hin) as (H1 & H2 & _).
+    split; [exact H1|]. intros a Ha. specialize (H2 a Ha). apply filter_In in H2. apply Z.eqb_eq. apply H2.
+  - apply (Hok key l H0).
+  - apply (Hok key l H0).
+  - apply (Hok key l H0).
+Qed.
+
+(* ------------------------------------------------------------------ Part H: program-made sets, exactly *)
+(* a program-made set only ever loses members, and never one that is still alive *)
+Definition utrack (s s' : st) : Prop :=
+  forall k m, lookup (SUser k) (sets s) = Some m ->
+    exists keep, lookup (SUser k) (sets s') = Some (filter keep m) /\
+                 forall x, In x m -> x < next_id s -> alive s' x = true -> keep x = true.
+
+Lemma utrack_user_unchanged s s' :
+  (forall k, lookup (SUser k) (sets s') = lookup (SUser k) (sets s)) -> utrack s s'.
+Proof.
+  intros H k m Hm. exists (fun _ => true). rewrite filter_all_true, H. split; [exact Hm|reflexivity].
+Qed.
+
+Lemma utrack_sweep s : utrack s (sweep s).
+Proof.
+  intros k m Hm. exists (alive s). cbn [sets sweep set_sets]. rewrite lookup_upd, Hm. split; [reflexivity|].
+  intros x _ _ H. exact H.
+Qed.
+
+Lemma lookup_user_deregister a s k :
+  lookup (SUser k) (sets (deregister a s)) = lookup (SUser k) (sets s).
+Proof.
+  unfold deregister. destruct (memz a (reg s)); [|reflexivity].
+  cbn [sets]. rewrite lookup_upd. cbn [touches]. destruct (lookup (SUser k) (sets s)); reflexivity.
+Qed.
+
+Lemma utrack_deregister a s : utrack s (deregister a s).
+Proof. apply utrack_user_unchanged. intros k. apply lookup_user_deregister. Qed.
+
+Lemma utrack_create1 c keep s : utrack s (create1 c keep s).
+Proof.
+  apply utrack_user_unchanged. intros k. cbn [sets create1].
+  destruct (has_set (SType c) (sets s)).
+  - rewrite lookup_upd. cbn [touches]. destruct (lookup (SUser k) (sets s)); reflexivity.
+  - rewrite lookup_app, lookup_upd. cbn [touches sref_eqb]. destruct (lookup (SUser k) (sets s)); reflexivity.
+Qed.
+
+Definition ev2 (s s' : st) : Prop := evolves s s' /\ utrack s s'.
+
+Lemma ev2_refl s : ev2 s s.
+Proof. split; [apply evolves_refl|apply utrack_user_unchanged; reflexivity]. Qed.
+
+Lemma ev2_trans s1 s2 s3 : ev2 s1 s2 -> ev2 s2 s3 -> ev2 s1 s3.
+Proof.
+  intros [E1 U1] [E2 U2]. split; [eapply evolves_trans; eassumption|].
+  destruct E1 as (N1 & D1 & _ & _). destruct E2 as (N2 & D2 & _ & _).
+  intros k m Hm. destruct (U1 k m Hm) as (k1 & L1 & C1). destruct (U2 k _ L1) as (k2 & L2 & C2).
+  exists (fun x => k1 x && k2 x). split; [rewrite L2, filter_filter; reflexivity|].
+  intros x Hx Hb H3.
+  assert (alive s2 x = true) as H2 by (apply D2; [lia|exact H3]).
+  assert (k1 x = true) as K1 by (apply C1; assumption).
+  rewrite K1. simpl. apply C2; [apply filter_In; split; assumption|lia|exact H3].
+Qed.
+
+Lemma ev2_same_user s s' :
+  evolves s s' -> (forall k, lookup (SUser k) (sets s') = lookup (SUser k) (sets s)) -> ev2 s s'.
+Proof. intros E H. split; [exact E|apply utrack_user_unchanged; exact H]. Qed.
+
+Lemma ev2_sweep s : ev2 s (sweep s).
+Proof. split; [apply evolves_sweep|apply utrack_sweep]. Qed.
+
+Lemma ev2_do_remove a keep s : ev2 s (do_remove a keep s).
+Proof.
+  split; [apply evolves_do_remove|].
+  unfold do_remove. destruct (alive s a) eqn:Ea; [|apply utrack_user_unchanged; reflexivity].
+  (* deregister (user sets untouched), maybe one more reference, then the sweep *)
+  intros k m Hm.
+  set (s2 := if keep then set_ext (ext (deregister a s) ++ [a]) (deregister a s) else deregister a s).
+  assert (lookup (SUser k) (sets s2) = Some m) as H2.
+  { assert (sets s2 = sets (deregister a s)) as -> by (unfold s2; destruct keep; reflexivity).
+    rewrite lookup_user_deregister. exact Hm. }
+  exists (alive s2). cbn [sets sweep set_sets]. rewrite lookup_upd, H2. split; [reflexivity|].
+  intros x _ _ H. exact H.
+Qed.
+
+Lemma ev2_create_n n c keep s : ev2 s (create_n n c keep s).
+Proof.
+  revert s. induction n as [|n IH]; intros s; simpl; [apply ev2_refl|].
+  eapply ev2_trans; [|apply IH]. split; [apply evolves_create1|apply utrack_create1].
+Qed.
+
+Lemma ev2_exec_act self s a : ev2 s (exec_act self s a).
+Proof.
+  destruct a; simpl.
+  - apply ev2_refl.
+  - apply ev2_do_remove.
+  - apply ev2_do_remove.
+  - apply ev2_create_n.
+  - eapply ev2_trans; [|apply ev2_sweep]. apply ev2_same_user; [apply evolves_drop_ext|reflexivity].
+  - destruct (alive s i) eqn:E; [|apply ev2_refl]. apply ev2_same_user; [apply evolves_add_ext; exact E|reflexivity].
+Qed.
+
+Lemma ev2_run_acts self l s : ev2 s (run_acts self l s).
+Proof.
+  revert s. induction l as [|a t IH]; intros s; simpl; [apply ev2_refl|].
+  eapply ev2_trans; [apply ev2_exec_act|apply IH].
+Qed.
+
+Lemma ev2_visit1 sc r s : ev2 s (visit1 sc r s).
+Proof.
+  unfold visit1. destruct (alive s r) eqn:E.
+  - eapply ev2_trans; [apply ev2_same_user; [apply evolves_set_cur_some; exact E|reflexivity]|].
+    eapply ev2_trans; [apply ev2_sweep|apply ev2_run_acts].
+  - eapply ev2_trans; [apply ev2_same_user; [apply evolves_set_cur_none|reflexivity]|apply ev2_sweep].
+Qed.
+
+Lemma ev2_visit sc order s : ev2 s (fst (visit sc order s)).
+Proof.
+  revert s. induction order as [|r t IH]; intros s; [apply ev2_refl|].
+  rewrite visit_cons. cbn [fst]. eapply ev2_trans; [apply ev2_visit1|apply IH].
+Qed.
+
+Lemma ev2_activate k perm sc snap s s' log :
+  activate k perm sc snap s = Some (s', log) -> ev2 s s'.
+Proof.
+  intros H. apply activate_spec in H. destruct H as (order & _ & _ & ->).
+  eapply ev2_trans; [apply ev2_visit|].
+  eapply ev2_trans; [apply ev2_same_user; [apply evolves_set_cur_none|reflexivity]|apply ev2_sweep].
+Qed.
+
+(* after any activation a program-made set is exactly its former self minus the agents that died *)
+Lemma reached_user_set_exact ops k r perm sc snap s' log j m :
+  lookup r (sets (reached ops)) = Some snap ->
+  activate k perm sc snap (reached ops) = Some (s', log) ->
+  lookup (SUser j) (sets (reached ops)) = Some m ->
+  lookup (SUser j) (sets s') = Some (filter (alive s') m).
+Proof.
+  intros _ Hact Hm.
+  destruct (ev2_activate _ _ _ _ _ _ _ Hact) as [_ U].
+  destruct (U j m Hm) as (keep & L & C). rewrite L. f_equal.
+  destruct (inv_activate _ _ _ _ _ _ _ (inv_reachable ops) Hact) as [_ Lv].
+  destruct (reached_set ops (SUser j) m Hm) as [_ Hb].
+  apply filter_ext_in. intros x Hx.
+  destruct (keep x) eqn:Ek.
+  - symmetry. apply (Lv (SUser j) _ L). apply filter_In. split; assumption.
+  - destruct (alive s' x) eqn:Ea; [|reflexivity].
+    rewrite (C x Hx (proj2 (Hb x Hx)) Ea) in Ek. discriminate.
+Qed.
